@@ -97,9 +97,9 @@ def run_perm(case):
 
 # ---- 2. dependency graphs
 
-def run_graph(case):
-    _, seed, i = case
-    rng = common.rng_for(seed, PROP, "graph", i)
+def graph_source(rng, i):
+    """A random dependency graph over 1-4 constants and 1-4 structures, as source text. Every second graph has one cycle
+    of length 1-5 closed; declarations come in random order. Returns (src, cycle or None, consts, structs, edges, ptr_edges, decls)."""
     nc, ns = rng.randrange(1, 5), rng.randrange(1, 5)
     consts = ["K%d" % k for k in range(nc)]
     structs = ["S%d" % k for k in range(ns)]
@@ -117,15 +117,13 @@ def run_graph(case):
             if rank[m] > rank[n] and rng.random() < p:
                 edges[n].append(m)       # forward edges only: acyclic
     if want_cycle:
-        # close one cycle along a random back edge (possibly a self loop)
-        a = rng.choice(nodes)
-        reach = [a]
-        cur = a
-        for _ in range(rng.randrange(0, 3)):
-            if edges[cur]:
-                cur = rng.choice(edges[cur])
-                reach.append(cur)
-        edges[cur].append(a)
+        # one cycle of length 1-5 (a self loop when 1): a forward path through nodes in rank order, closed by a back edge
+        length = min(len(nodes), rng.choice([1, 2, 2, 3, 3, 4, 4, 5]))
+        path = sorted(rng.sample(nodes, length), key=lambda n: rank[n])
+        for a, b in zip(path, path[1:]):
+            if b not in edges[a]:
+                edges[a].append(b)
+        edges[path[-1]].append(path[0])
     # find cycle for the record
     cyc = find_cycle(edges)
     ptr_edges = []
@@ -159,12 +157,18 @@ def run_graph(case):
                 q += 1
                 members.append("\tp%d: &%s," % (q, b))
         decls.append("struct %s\n{\n%s\n}" % (s, "\n".join(members)))
-    if True:
-        main = "fn main() -> i32\n{\n" + "".join("\tprint!(%s, \"\\n\");\n" % c for c in consts) + \
-               "".join("\tprint!(|:%s|, \"\\n\");\n" % s for s in structs) + "\treturn: 0\n}"
+    main = "fn main() -> i32\n{\n" + "".join("\tprint!(%s, \"\\n\");\n" % c for c in consts) + \
+           "".join("\tprint!(|:%s|, \"\\n\");\n" % s for s in structs) + "\treturn: 0\n}"
     decls.append(main)
     rng.shuffle(decls)
     src = "\n\n".join(decls) + "\n"
+    return src, cyc, consts, structs, edges, ptr_edges, decls
+
+
+def run_graph(case):
+    _, seed, i = case
+    rng = common.rng_for(seed, PROP, "graph", i)
+    src, cyc, consts, structs, edges, ptr_edges, decls = graph_source(rng, i)
     got = outcome(src)
     replay = {"source": src, "cycle": cyc}
     cov = {"graph_programs": 1, "graph_cyclic" if cyc else "graph_acyclic": 1}
@@ -174,6 +178,7 @@ def run_graph(case):
     if cyc:
         kinds = set("const" if n in consts else "struct" for n in cyc)
         cov["cycle_" + "+".join(sorted(kinds))] = 1
+        cov["cycle_length_%d" % len(cyc)] = 1
         if got[0] == "ok":
             return {"verdict": VIOLATED, "sig": "cyclic %s dependency accepted" % "+".join(sorted(kinds)), "detail": cyc, "replay": replay, "cov": cov}
         if not (set(got[1]) & {413, 415, 416}):
@@ -228,7 +233,7 @@ def run_graph(case):
     if lines != exp:
         return {"verdict": VIOLATED, "sig": "constants/sizes of an acyclic graph differ from their definitions",
                 "detail": {"expected": exp, "observed": lines}, "replay": replay, "cov": cov}
-    return {"verdict": HELD, "cov": cov, "nt": "acyc:%d:%d:%d" % (nc, ns, sum(len(v) for v in edges.values())),
+    return {"verdict": HELD, "cov": cov, "nt": "acyc:%d:%d:%d" % (len(consts), len(structs), sum(len(v) for v in edges.values())),
             "sample": {"source": src[:700], "values": lines} if i % 100 == 1 else None}
 
 
